@@ -720,6 +720,11 @@ def builtin (fn : String) (args : List Val) : Option (M Val) :=
   | "sum", [.list l] => some (sumList (.int (.lit 0)) l)
   | "sum", [.list l, start] => some (sumList start l)
   | "cast", [_, v] => some (M.pure v)
+  -- `isinstance(v, T)` for the built-in scalar types (`bool` is a subclass of `int`)
+  | "isinstance", [v, .str "int"] => some (M.pure (.bool (.lit (match v with | .int _ => true | .bool _ => true | _ => false))))
+  | "isinstance", [v, .str "bool"] => some (M.pure (.bool (.lit (match v with | .bool _ => true | _ => false))))
+  | "isinstance", [v, .str "float"] => some (M.pure (.bool (.lit (match v with | .num _ => true | _ => false))))
+  | "isinstance", [v, .str "str"] => some (M.pure (.bool (.lit (match v with | .str _ => true | _ => false))))
   | "warnings.warn", _ => some (M.pure .none)
   | "len", [.list l] => some (M.pure (.int (.lit l.length)))
   | "len", [.dict ks _] => some (M.pure (.int (.lit ks.length)))
